@@ -9,6 +9,7 @@ import (
 	"os"
 	"reflect"
 	"testing"
+	"time"
 	"unsafe"
 
 	"github.com/bilibili/smgo/sm3"
@@ -129,6 +130,11 @@ type c17case struct {
 }
 
 func runScenarios(r *vx.R, part string, scs []*sched.Scenario) {
+	secs := 100.0
+	if vx.Thorough() {
+		secs = 1200
+	}
+	sched.Deadline = time.Now().Add(time.Duration(secs * float64(time.Second)))
 	bound, capS := 2, 60000
 	if vx.Thorough() {
 		bound, capS = 3, 1500000
